@@ -19,7 +19,7 @@ func init() {
 			Explanation: "Decides field coverage of the genesis round trip: for types.AppState and every struct nested in it, each field is WRITTEN by code reachable from the exporters (CheckState.Export, the export command) and READ by code reachable from the importers (State.Import, SwapV2.Import, Blockchain.InitChain). A field with a writer and no reader is state that an export→genesis→import cycle silently drops; a field with a reader and no writer is state the new chain invents. " +
 				"(order) every map range in Export-reachable code is order-insensitive (the C08 rule), so two exports of one state are identical. NOT decided: Verify() accepting the export, value equality of what is written and read back, behaviour of the new chain.",
 			Assumptions: stdAssumptions,
-			Rules:       []string{"C11.fields", "C11.order", "C11.complete"},
+			Rules:       []string{"C11.fields", "C11.order", "C11.complete", "C11.skip", "C11.source"},
 		},
 		Run: runC11,
 	})
@@ -95,6 +95,7 @@ func checkExportComplete(c *core.Ctx, rule string) {
 
 func runC11(c *core.Ctx) {
 	defer checkExportComplete(c, "C11.complete")
+	defer checkAccountSkip(c, "C11.skip")
 	root := c.Named("coreV2/types", "AppState")
 	if root == nil {
 		c.Unk("C11.fields", "types.AppState", token.NoPos, "type not found")
@@ -121,6 +122,21 @@ func runC11(c *core.Ctx) {
 		// do not walk from the importers into the exporters (InitChain does not export)
 		return fn.Name() == "Export"
 	})
+	// field-by-field rebuilds in the importers and exporters take every field from one source
+	var scan []*ssa.Function
+	for fn := range imp {
+		if pk := core.PkgOf(fn); strings.HasPrefix(pk, core.PkgState) || pk == "coreV2/minter" {
+			scan = append(scan, fn)
+		}
+	}
+	for fn := range exp {
+		if _, dup := imp[fn]; !dup && strings.HasPrefix(core.PkgOf(fn), core.PkgState) {
+			scan = append(scan, fn)
+		}
+	}
+	sort.Slice(scan, func(i, j int) bool { return scan[i].String() < scan[j].String() })
+	nMix := checkSourceMix(c, "C11.source", scan)
+	c.Floor("C11.source", nMix, 2, "records rebuilt field by field from one source object in import/export code")
 	n := 0
 	for _, st := range nestedStructs(root) {
 		for _, f := range core.StructFields(st) {
@@ -179,4 +195,112 @@ func runC11(c *core.Ctx) {
 		nr += checkMapRanges(c, "C11.order", fn)
 	}
 	c.Floor("C11.order", nr, 5, "map ranges in Export-reachable code")
+}
+
+// checkAccountSkip — C11.skip. The accounts exporter leaves "empty" records out of the genesis.
+// A record may be dropped only if nothing in it has to survive: no balance, nonce 0 (C04) and no
+// multisig wallet — a wallet is created by somebody else's transaction and can sit there unfunded
+// and unused, yet the address must remain a wallet on the new chain. (LockStakeUntilBlock needs
+// the account's own transaction, hence a non-zero nonce.) Decided: every return of the export
+// callback that is reached after the record was looked up and without appending it lies behind
+// decisions that established all three.
+func checkAccountSkip(c *core.Ctx, rule string) {
+	exp := c.MustFn(rule, "(*coreV2/state/accounts.Accounts).Export")
+	if exp == nil {
+		return
+	}
+	n := 0
+	for _, fn := range exp.AnonFuncs {
+		var lookup ssa.Instruction
+		var appended *ssa.BasicBlock
+		for _, b := range fn.Blocks {
+			for _, in := range b.Instrs {
+				if call, ok := in.(*ssa.Call); ok {
+					if bi, ok := call.Call.Value.(*ssa.Builtin); ok && bi.Name() == "append" && strings.HasSuffix(core.Path(call.Call.Args[0]), ".Accounts") {
+						appended = b
+					}
+					if sc := call.Call.StaticCallee(); sc != nil && lookup == nil && sc.Signature.Recv() != nil && strings.HasSuffix(sc.Signature.Recv().Type().String(), "accounts.Accounts") && strings.HasPrefix(strings.ToLower(sc.Name()), "get") {
+						lookup = in
+					}
+				}
+			}
+		}
+		if lookup == nil || appended == nil {
+			continue
+		}
+		n++
+		type facts struct{ nonce, multisig, balance bool }
+		bad := ""
+		var missing []string
+		var dfs func(b *ssa.BasicBlock, f facts, seen map[*ssa.BasicBlock]bool)
+		dfs = func(b *ssa.BasicBlock, f facts, seen map[*ssa.BasicBlock]bool) {
+			if bad != "" || b == appended || seen[b] {
+				return
+			}
+			seen[b] = true
+			defer func() { seen[b] = false }()
+			if len(b.Instrs) > 0 {
+				if r, ok := b.Instrs[len(b.Instrs)-1].(*ssa.Return); ok {
+					if !(f.nonce && f.multisig && f.balance) {
+						bad = c.PosStr(r.Pos())
+						missing = nil
+						if !f.balance {
+							missing = append(missing, "an empty balance list")
+						}
+						if !f.nonce {
+							missing = append(missing, "nonce 0")
+						}
+						if !f.multisig {
+							missing = append(missing, "no multisig data")
+						}
+					}
+					return
+				}
+			}
+			iff := core.IfOf(b)
+			for i, s := range b.Succs {
+				nf := f
+				if iff != nil {
+					taken := i == 0
+					switch x := iff.Cond.(type) {
+					case *ssa.BinOp:
+						if x.Op == token.EQL || x.Op == token.NEQ {
+							isEq := (x.Op == token.EQL) == taken
+							l, r := core.Unwrap(x.X), core.Unwrap(x.Y)
+							if k, ok := core.ConstInt(r); ok && k == 0 && isEq {
+								if ld, ok := l.(*ssa.UnOp); ok {
+									if fa, ok := ld.X.(*ssa.FieldAddr); ok && fieldNameOf(fa) == "Nonce" {
+										nf.nonce = true
+									}
+								}
+								if call, ok := l.(*ssa.Call); ok {
+									if bi, ok := call.Call.Value.(*ssa.Builtin); ok && bi.Name() == "len" && strings.HasSuffix(call.Call.Args[0].Type().String(), "types.Balance") {
+										nf.balance = true
+									}
+								}
+							}
+							if k, ok := r.(*ssa.Const); ok && k.IsNil() && isEq {
+								if ld, ok := l.(*ssa.UnOp); ok {
+									if fa, ok := ld.X.(*ssa.FieldAddr); ok && fieldNameOf(fa) == "MultisigData" {
+										nf.multisig = true
+									}
+								}
+							}
+						}
+					case *ssa.Call:
+						if methodNameOfCall(x) == "IsMultisig" && !taken {
+							nf.multisig = true
+						}
+					}
+				}
+				dfs(s, nf, seen)
+			}
+		}
+		// start right after the record lookup
+		start := lookup.Block()
+		dfs(start, facts{}, map[*ssa.BasicBlock]bool{})
+		c.Check(bad == "", rule, "Accounts.Export/skip", fn.Pos(), "a record is left out of the genesis only with an empty balance list, nonce 0 and no multisig data",
+			"Accounts.Export can leave out a record (return at "+bad+") without having established "+strings.Join(missing, " and ")+": what the record carries does not reach the new chain (an unfunded multisig wallet becomes a plain address and funds sent to it are stuck)")
+	}
+	c.Check(n >= 1, rule, "Accounts.Export/closure", exp.Pos(), "the account export callback was found", "the account export callback (record lookup + append to state.Accounts) was not found: the recogniser does not see the code it is meant to check")
 }
